@@ -93,8 +93,26 @@ func (r *schedRun) gate(point string, entry interface{}) {
 	<-t.release
 }
 
+// let thread t leave its gate; a thread that is not at a gate (the implementation took another path than
+// the controller assumed) never receives: that is reported as BLOCKED instead of hanging the harness
+func (r *schedRun) rel(t *schedThread) {
+	if r.blocked {
+		return
+	}
+	select {
+	case t.release <- struct{}{}:
+	case <-time.After(schedWatchdog):
+		r.blocked = true
+		t.pos = "BLOCKED"
+	}
+}
+
 // wait for thread t to report its next stop
 func (r *schedRun) await(t *schedThread) string {
+	if r.blocked {
+		t.pos = "BLOCKED"
+		return "BLOCKED"
+	}
 	select {
 	case p := <-t.report:
 		t.pos = p
@@ -412,7 +430,7 @@ func runSchedule(cr *rng, seq int, script []string) {
 			t := a.t
 			run.loadPlan = arg(2, []string{"honest", "honest", "honest", "error", "mutate", "mutate"}[cr.intn(6)])
 			t.loadOut = "none"
-			t.release <- struct{}{}
+			run.rel(t)
 			run.await(t)
 			if t.pos == "get.registered" {
 				run.waiters[t.entry] = append(run.waiters[t.entry], t)
@@ -420,7 +438,7 @@ func runSchedule(cr *rng, seq int, script []string) {
 			emit("sched", "get", idOf(t), hx(t.loadOut), "=>", posLine(t))
 		case "park":
 			t := a.t
-			t.release <- struct{}{}
+			run.rel(t)
 			t.pos = "parked"
 			emit("sched", "park", idOf(t), "=>", posLine(t))
 			if run.draining[t.entry] != nil {
@@ -428,7 +446,7 @@ func runSchedule(cr *rng, seq int, script []string) {
 			}
 		case "resume":
 			t := a.t
-			t.release <- struct{}{}
+			run.rel(t)
 			run.await(t)
 			emit("sched", "resume", idOf(t), "=>", posLine(t))
 		case "upEnd":
@@ -440,7 +458,7 @@ func runSchedule(cr *rng, seq int, script []string) {
 				t.answer.kind = arg(2, "cacheable")
 				t.answer.ttl, _ = strconv.Atoi(arg(3, "60"))
 			}
-			t.release <- struct{}{}
+			run.rel(t)
 			run.await(t)
 			emit("sched", "upEnd", idOf(t), hx(t.answer.kind), itoa(int64(t.answer.ttl)), itoa(int64(t.answer.rid)), "=>", posLine(t))
 		case "complete":
@@ -449,10 +467,10 @@ func runSchedule(cr *rng, seq int, script []string) {
 			run.draining[e] = t
 			run.queue[e] = run.waiters[e]
 			run.waiters[e] = nil
-			t.release <- struct{}{}
+			run.rel(t)
 			// the completion's critical section up to the detaching of the waiter list is one atomic step
 			if run.await(t) == "complete.detached" {
-				t.release <- struct{}{}
+				run.rel(t)
 				t.pos = "draining"
 			}
 			emit("sched", "complete", idOf(t), "=>", posLine(t))
@@ -463,14 +481,14 @@ func runSchedule(cr *rng, seq int, script []string) {
 			if sp != nil {
 				run.savePlan = arg(2, "1") == "1"
 			}
-			t.release <- struct{}{}
+			run.rel(t)
 			finish(t)
 			delete(run.draining, t.entry)
 			delete(run.queue, t.entry)
 			emit("sched", "saved", idOf(t), b2s(run.savePlan), "=>", posLine(t))
 		case "age":
 			t := a.t
-			t.release <- struct{}{}
+			run.rel(t)
 			finish(t)
 			emit("sched", "age", idOf(t), "=>", posLine(t))
 		case "tick":
@@ -511,7 +529,7 @@ func runSchedule(cr *rng, seq int, script []string) {
 				if run.draining[t.entry] == nil {
 					run.loadPlan = "honest"
 					t.loadOut = "none"
-					t.release <- struct{}{}
+					run.rel(t)
 					run.await(t)
 					if t.pos == "get.registered" {
 						run.waiters[t.entry] = append(run.waiters[t.entry], t)
@@ -520,7 +538,7 @@ func runSchedule(cr *rng, seq int, script []string) {
 					progressed = true
 				}
 			case "get.registered":
-				t.release <- struct{}{}
+				run.rel(t)
 				t.pos = "parked"
 				emit("sched", "park", idOf(t), "=>", posLine(t))
 				if run.draining[t.entry] != nil {
@@ -528,14 +546,14 @@ func runSchedule(cr *rng, seq int, script []string) {
 				}
 				progressed = true
 			case "get.woken":
-				t.release <- struct{}{}
+				run.rel(t)
 				run.await(t)
 				emit("sched", "resume", idOf(t), "=>", posLine(t))
 				progressed = true
 			case "upstream":
 				run.nextRid++
 				t.answer = upAnswer{kind: "nostore", ttl: 1, rid: run.nextRid}
-				t.release <- struct{}{}
+				run.rel(t)
 				run.await(t)
 				emit("sched", "upEnd", idOf(t), hx(t.answer.kind), "1", itoa(int64(t.answer.rid)), "=>", posLine(t))
 				progressed = true
@@ -545,9 +563,9 @@ func runSchedule(cr *rng, seq int, script []string) {
 					run.draining[e] = t
 					run.queue[e] = run.waiters[e]
 					run.waiters[e] = nil
-					t.release <- struct{}{}
+					run.rel(t)
 					if run.await(t) == "complete.detached" {
-						t.release <- struct{}{}
+						run.rel(t)
 						t.pos = "draining"
 					}
 					emit("sched", "complete", idOf(t), "=>", posLine(t))
@@ -556,7 +574,7 @@ func runSchedule(cr *rng, seq int, script []string) {
 				}
 			case "drained":
 				run.savePlan = true
-				t.release <- struct{}{}
+				run.rel(t)
 				finish(t)
 				delete(run.draining, t.entry)
 				delete(run.queue, t.entry)
@@ -564,7 +582,7 @@ func runSchedule(cr *rng, seq int, script []string) {
 				progressed = true
 			case "age.enter":
 				if run.draining[t.entry] == nil {
-					t.release <- struct{}{}
+					run.rel(t)
 					finish(t)
 					emit("sched", "age", idOf(t), "=>", posLine(t))
 					progressed = true
